@@ -89,6 +89,7 @@ engine_prop('C09', ['C09'], PHASE_FIELDS | CHIP_FIELDS | CARD_FIELDS, ALL_OPS)
 engine_prop('C10', ['C10'], DEAL_FIELDS, DEAL_OPS)
 engine_prop('C12', ['C12'], SHOW_FIELDS | CHIP_FIELDS, SHOW_OPS)
 engine_prop('C13', ['C13'], {'opener', 'actors', 'actor', 'turn', 'bringin', 'completion'}, BET_OPS)
+engine_prop('C14', ['C14'], RUNOUT_FIELDS | {'subpots', 'pots_'}, {'RunoutCountSelection', 'BoardDealing', 'ChipsPushing', 'HoleCardsShowingOrMucking'})
 engine_prop('C15', ['C15'], set(), ALL_OPS)
 
 
@@ -185,6 +186,7 @@ def replay(pid: str, spec: dict, path: str) -> int:
     import paired  # noqa: F401
     import dealing  # noqa: F401
     import opener  # noqa: F401
+    import runout  # noqa: F401
     d = json.load(open(path))
     if spec['kind'] == 'eval':
         return replay_eval(pid, d)
